@@ -235,6 +235,7 @@ class Translator:
         return sp.Tuple(*out)
 
     t_List = t_Tuple
+    t_Set = t_Tuple          # a set display of literals: used for membership tests only
 
     def t_Call(self, n: ast.Call):
         if self.unroll_comps and any(isinstance(a, ast.Starred) for a in n.args):
